@@ -65,11 +65,22 @@ inductive MergeRule where
   | skipIncompatible
   deriving DecidableEq, Repr
 
+/-- In which order the union/union arm tries the PARAMETER's variants for one argument variant. -/
+inductive VariantOrder where
+  /-- current code (fix e097c86): the structured variants first, the bare type variables last
+  (stable otherwise) — a variable unifies with anything by widening, so in `'t | []` against
+  `'int | []` it must not be offered the argument's `[]` before the parameter's own `[]`. -/
+  | structuredFirst
+  /-- the code before e097c86: declaration order. -/
+  | declared
+  deriving DecidableEq, Repr
+
 /-- The switches of the unification algorithm. `Rules.current` is the code as it is. -/
 structure Rules where
   unionArg : UnionArgRule := .everyVariant
   cycle : CycleRule := .lenient
   merge : MergeRule := .adopt
+  order : VariantOrder := .structuredFirst
   deriving DecidableEq, Repr
 
 def Rules.current : Rules := {}
@@ -77,6 +88,8 @@ def Rules.current : Rules := {}
 def Rules.beforeF6 : Rules := { unionArg := .anyVariant }
 /-- the code before fix e4496af. -/
 def Rules.beforeMergeFix : Rules := { merge := .skipIncompatible }
+/-- the code before fix e097c86. -/
+def Rules.beforeOrderFix : Rules := { order := .declared }
 
 /-! ### `contains_variables` -/
 
@@ -226,6 +239,15 @@ def adoptBindings (mr : MergeRule) (T : Table) (cf : Nat) (b temp : Bindings) : 
   | .adopt => some temp
   | .skipIncompatible => mergeBindings mr T cf b temp
 
+/-- `sort_by_key(|id| matches!(lookup_type(id), Some(Type::Variable(_))))` — a stable sort on a
+Boolean key: the non-variables in their order, then the variables in theirs. -/
+def orderVariants (o : VariantOrder) (T : Table) (pvs : List Nat) : List Nat :=
+  match o with
+  | .declared => pvs
+  | .structuredFirst =>
+    let isVar : Nat → Bool := fun i => match T.types[i]? with | some (.variable _) => true | _ => false
+    pvs.filter (fun i => !isVar i) ++ pvs.filter isVar
+
 /-- the outer loop of the union/union arm: every concrete variant must unify with some pattern
 variant (first match), whose bindings are merged. -/
 def unionUnion (mr : MergeRule) (cf : Nat) (rec : Table → Bindings → Nat → Nat → URes) (pvs : List Nat) :
@@ -324,7 +346,7 @@ def unifyStep (rules : Rules) (cf : Nat) (rec : Table → Bindings → Nat → N
   -- never
   | .union [], _ => some (T, some b)
   | _, .union [] => some (T, some b)
-  | .union pvs, .union cvs => unionUnion rules.merge cf rec pvs T b cvs
+  | .union pvs, .union cvs => unionUnion rules.merge cf rec (orderVariants rules.order T pvs) T b cvs
   -- union parameter, non-union argument: first variant that unifies
   | .union pvs, _ => firstU (fun T' b' pv => rec T' b' pv a) T b pvs
   -- non-union parameter, union argument
